@@ -18,7 +18,9 @@ META = {
     "text": "Coq theorems: any reader meeting the stream contract fetches at most len bytes from its backing files for an "
             "in-range request of len bytes, and the block walker performs at most len/unit + 2 table look-ups — bounds that "
             "mention neither table contents, file length nor the amount of allocated data (instances: VHD, VDI, VHDX, HDS; "
-            "QCOW2/VMDK in C01/C02); wide offsets decode without truncation. The scale claim is validated by correspondence on "
+            "QCOW2/VMDK in C01/C02); wide offsets decode without truncation; table caches: a working set within the capacity loads "
+            "each table once, and several readers side by side with one cache each (the extents of a VMDK) load each table of "
+            "each reader once under any interleaving (Proofs/LruCost.v, LruMulti.v). The scale claim is validated by correspondence on "
             "virtual images of 2^40..2^46 bytes whose tables and data sit beyond 2^32 sectors, with a counting backing file: "
             "data-region reads must equal the model plan's file segments exactly, metadata reads must stay within the bound, "
             "open-time I/O must not move when the allocated fraction is swept.",
